@@ -94,7 +94,13 @@ def inject(rng, f0, kind):
             f["conds"].append(dslgen.gen_condition(rng, "cond"))
         c = copy.deepcopy(rng.choice(f["conds"]))
         f["conds"].insert(rng.randrange(len(f["conds"]) + 1), c)
-        return f, {"condition": c["name"]}
+        site = {"condition": c["name"]}
+        if rng.random() < 0.35:
+            # the earlier of the two definitions has no expression at all (an empty body, or only a CEL comment)
+            first = [x for x in f["conds"] if x["name"] == c["name"]][0]
+            first["expr"] = rng.choice(["", "", "// nothing yet"])
+            site["first_body"] = first["expr"]
+        return f, site
     if kind == "duplicate-parameter":
         if not f["conds"]:
             f["conds"].append(dslgen.gen_condition(rng, "cond"))
